@@ -225,7 +225,14 @@ where
     type Stream = Self;
 
     fn into_parts(self) -> (Vector<VectorDiffContainerStreamElement<S>>, Self::Stream) {
-        (self.buffered_vector.clone(), self)
+        // Hand over the current view, not the replica of the underlying vector: nothing until
+        // the first count has arrived, then everything after the first `count` values.
+        let values = match self.count {
+            Some(count) => self.buffered_vector.clone().skeep(count),
+            None => Vector::new(),
+        };
+
+        (values, self)
     }
 }
 
